@@ -386,6 +386,8 @@ pub fn scen_prop_hist(ctx: &Ctx) -> i32 {
         match prop {
             "C14" => {
                 p.w = [20, 10, 8, 3, 2, 1, 2, 0, 0, 0, 0, 30, 0, 1];
+                // batches of up to 200 keys, a few far larger ones (bulk_get / bulk_delete only)
+                p.bulk_max = if i % 3 == 0 { 3000 } else { 200 };
             }
             "C17" => {
                 p.w = [40, 5, 18, 0, 1, 0, 1, 12, 0, 0, 0, 2, 0, 0];
@@ -414,6 +416,14 @@ pub fn scen_prop_hist(ctx: &Ctx) -> i32 {
             continue;
         }
         seqs.push(gen_history(&mut r, &p));
+    }
+    if matches!(prop, "C01" | "C05") {
+        // keys with one and the same 64-bit hash
+        let mut crng = Rng::new(ctx.seed ^ fnv("collide"));
+        for i in 0..(if ctx.tier_thorough { 60 } else { 8 }) {
+            let mut r = crng.fork(880_000 + i as u64);
+            seqs.push(gen_collide(&mut r, if i % 2 == 0 { Kt::Bytes } else { Kt::Str }, 80));
+        }
     }
     if prop == "C01" {
         // one long history (no per-op byte comparison)
@@ -1106,9 +1116,26 @@ pub fn scen_readonly(ctx: &Ctx) -> i32 {
         q.w = [0, 25, 0, 10, 5, 3, 12, 6, 8, 1, 0, 0, 4, 2];
         q.pool = p.pool + 3;
         let ro = gen_history(&mut r, &q);
+        // parameters given when an existing map is opened again are ignored (C07): the read-only session
+        // of every second sequence starts after such an open, with a larger or smaller table size asked for
+        let other = |r: &mut Rng| match r.below(5) {
+            0 => p.params,
+            1 => Params::buckets(*r.pick(&[4096u64, 65536, 1 << 20])),
+            2 => Params::buckets(*r.pick(&[1u64, 2, 3, 8])),
+            3 => Params { bk: Bk::Default, ..Params::buckets(1) },
+            _ => Params { bk: Bk::Cap(*r.pick(&[1u64, 100, 50_000])), ..Params::buckets(1) },
+        };
+        if i % 2 == 1 {
+            let op = Op::Reopen(other(&mut r));
+            s.ops.push(op);
+            s.ops.push(Op::Cmp(1));
+        }
         for o in ro.ops {
             match o {
-                Op::Reopen(_) => s.ops.push(Op::Reopen(p.params)),
+                Op::Reopen(_) => {
+                    let op = Op::Reopen(other(&mut r));
+                    s.ops.push(op)
+                }
                 o => s.ops.push(o),
             }
             if r.chance(1, 10) {
@@ -1158,6 +1185,41 @@ pub fn scen_readonly(ctx: &Ctx) -> i32 {
     finish(ctx, "readonly", &b, vec![])
 }
 
+/// the history with read-only calls spliced in (lookups mostly of keys the history uses: of the key of the next
+/// update, of other keys of the history, of random keys)
+fn splice_reads(r: &mut Rng, a: &Seq) -> Seq {
+    let kt = a.kt;
+    let used: Vec<B> = a.ops.iter().filter_map(|o| match o {
+        Op::Put(k, _) | Op::Del(k) | Op::PutString(k, _) | Op::DelString(k) => Some(k.clone()),
+        _ => None,
+    }).collect();
+    let mut ops = Vec::new();
+    for (j, o) in a.ops.iter().enumerate() {
+        ops.push(o.clone());
+        if r.chance(1, 3) {
+            let next_key = a.ops.get(j + 1).and_then(|o| match o {
+                Op::Put(k, _) | Op::Del(k) => Some(k.clone()),
+                _ => None,
+            });
+            let mut key = |r: &mut Rng| match r.below(4) {
+                0 => gen_key(r, kt, 0),
+                1 if next_key.is_some() => next_key.clone().unwrap(),
+                _ if !used.is_empty() => r.pick(&used).clone(),
+                _ => gen_key(r, kt, 0),
+            };
+            ops.push(match r.below(6) {
+                0 => Op::Get(key(r)),
+                1 => Op::Len,
+                2 => Op::Iter(r.below(7) as u8),
+                3 => Op::Stats,
+                4 => Op::Inc(key(r)),
+                _ => Op::ReadFill,
+            });
+        }
+    }
+    Seq { kt, params: a.params, ops }
+}
+
 /// C18: same updates, different process / directory / interleaved reads => identical files
 pub fn scen_determ(ctx: &Ctx) -> i32 {
     let count = sizes(ctx, 40, 400);
@@ -1174,24 +1236,19 @@ pub fn scen_determ(ctx: &Ctx) -> i32 {
             p.pool = r.range(2, 25) as usize;
             let a = gen_history(&mut r, &p);
             // second run: read-only calls spliced in
-            let mut ops = Vec::new();
-            for o in &a.ops {
-                ops.push(o.clone());
-                if r.chance(1, 3) {
-                    ops.push(match r.below(6) {
-                        0 => Op::Get(gen_key(&mut r, kt, 0)),
-                        1 => Op::Len,
-                        2 => Op::Iter(r.below(7) as u8),
-                        3 => Op::Stats,
-                        4 => Op::Inc(gen_key(&mut r, kt, 0)),
-                        _ => Op::ReadFill,
-                    });
-                }
-            }
-            let bseq = Seq { kt, params: a.params, ops };
+            let bseq = splice_reads(&mut r, &a);
             (a, bseq)
         })
         .collect();
+    // directed: keys with one and the same 64-bit hash, lookups in front of updates of another key
+    let mut jobs = jobs;
+    for i in 0..(if ctx.tier_thorough { 40 } else { 8 }) {
+        let mut r = rng.fork(70_000 + i as u64);
+        let a = gen_collide(&mut r, if i % 2 == 0 { Kt::Bytes } else { Kt::Str }, 60);
+        // run A: the updates alone
+        let upd = Seq { kt: a.kt, params: a.params, ops: a.ops.iter().filter(|o| matches!(o, Op::Put(..) | Op::Del(..))).cloned().collect() };
+        jobs.push((upd, a));
+    }
     let results: Mutex<Vec<(usize, Option<String>, Vec<Diff>, Cov, usize)>> = Mutex::new(Vec::new());
     let next = Mutex::new(0usize);
     std::thread::scope(|sc| {
